@@ -36,7 +36,7 @@ package flamego
 //@   modifies nothing
 
 //@ func NewResponseWriter
-//@   props C13 C05
+//@   props C13 C05 C03
 //@   requires w != nil
 //@   ghost before exit: result.(*responseWriter).hdr0 = w.hdrCount
 //@   ghost before exit: result.(*responseWriter).sent0 = w.hdrSent
@@ -48,7 +48,7 @@ package flamego
 //@   ensures result.(*responseWriter).ResponseWriter == w && result.(*responseWriter).method == method
 
 //@ func (*responseWriter).callBefore
-//@   props C13
+//@   props C13 C03
 //@   requires w.hookCalls == 0 && hooksNonNil(w)
 //@   modifies w.hookCalls, w.hookOrder
 //@   ghost before elem#0: w.hookOrder[w.hookCalls] = i
@@ -61,7 +61,7 @@ package flamego
 //@   loop 0 decreases i + 1
 
 //@ func (*responseWriter).WriteHeader
-//@   props C13 C05 C17
+//@   props C13 C05 C17 C03
 //@   requires rwInv(w)
 //@   requires 100 <= s && s <= 999
 //@   modifies w.status, w.writeHeaderOnce.fired, w.beforeOnce.fired, w.hookCalls, w.hookOrder, w.hdrAtHooks, w.nHooksRun,
@@ -75,7 +75,7 @@ package flamego
 //@   ensures old(w.status) != 0 ==> w.status == old(w.status) && w.ResponseWriter.hdrCount == old(w.ResponseWriter.hdrCount) && w.hookCalls == old(w.hookCalls)
 
 //@ func (*responseWriter).Write
-//@   props C13 C05 C17
+//@   props C13 C05 C17 C03
 // (C17: what a renderer writes reaches the underlying writer verbatim, for every status; only HEAD drops the body)
 //@   ensures[C17] w.method != "HEAD" ==> w.ResponseWriter.lastWrite == bytes(b)
 //@   requires rwInv(w)
@@ -90,7 +90,7 @@ package flamego
 //@   ensures 0 <= size && size <= len(b)
 
 //@ func (*responseWriter).Flush
-//@   props C13
+//@   props C13 C03
 //@   requires rwInv(w)
 //@   modifies w.status, w.writeHeaderOnce.fired, w.beforeOnce.fired, w.hookCalls, w.hookOrder, w.hdrAtHooks, w.nHooksRun,
 //@            w.ResponseWriter.hdrCount, w.ResponseWriter.hdrSent, w.ResponseWriter.firstStatus, w.ResponseWriter.bodyAtHdr, w.ResponseWriter.ctAtHdr, w.ResponseWriter.flushes
@@ -100,25 +100,37 @@ package flamego
 //@   ensures w.size == old(w.size)
 
 //@ func (*responseWriter).Status
-//@   props C13
+//@   props C13 C03
 //@   ensures result == w.status
 
 //@ func (*responseWriter).Written
-//@   props C13
+//@   props C13 C03
 //@   ensures result == (w.status != 0)
 
 //@ func (*responseWriter).Size
-//@   props C13
+//@   props C13 C03
 //@   ensures result == w.size
 
 //@ func (*responseWriter).Before
-//@   props C13
+//@   props C13 C03
 //@   requires rwInv(w) && before != nil
 //@   modifies w.beforeFuncs, w.beforeFuncs[*]
 //@   ensures rwInv(w)
 //@   ensures len(w.beforeFuncs) == len(old(w.beforeFuncs)) + 1
 //@   ensures w.beforeFuncs[len(old(w.beforeFuncs))] == before
 //@   ensures forall k int :: 0 <= k && k < len(old(w.beforeFuncs)) ==> w.beforeFuncs[k] == old(w.beforeFuncs[k])
+
+// Every other exported method of the response writer (today: Hijack, Push; any method added later) is verified against
+// this default: it keeps the invariant and does not touch what the invariant speaks about.
+//@ iface http.Hijacker.Hijack(this) c, rw, err
+//@   modifies nothing
+//@ iface http.Pusher.Push(this, target, opts) err
+//@   modifies nothing
+//@ methods (*responseWriter) (this)
+//@   props C13 C03 C05 C17
+//@   requires rwInv(this)
+//@   modifies nothing
+//@   ensures rwInv(this)
 
 // ---------------------------------------------------------------------------
 // C03 Handler chain
@@ -224,6 +236,50 @@ package flamego
 //@   ensures forall k int :: 0 <= k && k < len(f.handlers) ==> result.(*context).handlers[k] == f.handlers[k]
 //@   ensures forall k int :: 0 <= k && k < len(handlers) ==> result.(*context).handlers[len(f.handlers) + k] == handlers[k]
 //@   ensures fresh(result.(*context).handlers) && fresh(result.(*context).responseWriter) && fresh(result.(*context).request)
+
+// Application middleware: Use appends (wrapped, in order) behind what is there, Handlers replaces the stack, Action sets
+// the final handler, Before queues in FIFO order. createContext (above) puts f.handlers in front of the route's handlers.
+//@ func (*Flame).Use
+//@   props C03
+//@   requires handlersNonNil(f.handlers) && (ref(handlers) == 0 || base(handlers) != base(f.handlers)) && allocated(f.handlers)
+//@   modifies f.handlers, handlers[*], f.handlers[*]
+//@   panics true
+//@   ensures len(f.handlers) == old(len(f.handlers)) + len(handlers) && handlersNonNil(f.handlers)
+//@   ensures fresh(f.handlers) || base(f.handlers) == old(base(f.handlers))
+//@   ensures forall k int :: 0 <= k && k < old(len(f.handlers)) ==> f.handlers[k] == old(f.handlers[k])
+//@   ensures forall j int :: old(len(f.handlers)) <= j && j < len(f.handlers) ==> f.handlers[j] == flamego.validateAndWrapHandler(old(handlers[j - len(f.handlers)]), nil)
+// Handlers: the stack becomes exactly the given handlers (wrapped), in order
+//@ func (*Flame).Handlers
+//@   props C03
+//@   modifies f.handlers, elems(type([]Handler))
+//@   panics true
+//@   ensures len(f.handlers) == len(handlers) && handlersNonNil(f.handlers)
+//@   ensures forall k int :: 0 <= k && k < len(handlers) ==> f.handlers[k] == flamego.validateAndWrapHandler(handlers[k], nil)
+//@   loop 0 invariant len(f.handlers) == rangeindex + 1 && handlersNonNil(f.handlers) && fresh(f.handlers) && handlers == old(handlers)
+//@   loop 0 invariant forall k int :: 0 <= k && k <= rangeindex ==> f.handlers[k] == flamego.validateAndWrapHandler(handlers[k], nil)
+//@   loop 0 invariant forall k int :: 0 <= k && k < len(handlers) ==> handlers[k] == old(handlers[k])
+//@ func (*Flame).Action
+//@   props C03
+//@   modifies f.action
+//@   panics true
+//@   ensures f.action == flamego.validateAndWrapHandler(h, nil) && f.action != nil
+//@ func (*Flame).Before
+//@   props C07
+//@   modifies f.befores, elems(type([]BeforeHandler))
+//@   ensures len(f.befores) == old(len(f.befores)) + 1 && f.befores[old(len(f.befores))] == h
+//@   ensures forall k int :: 0 <= k && k < old(len(f.befores)) ==> f.befores[k] == old(f.befores[k])
+//@ func (*router).NotFound
+//@   props C07 C03
+//@   requires r.contextCreator != nil
+//@   modifies r.notFound, handlers[*]
+//@   panics true
+//@   ensures r.notFound != nil
+//@ func (*ComboRoute).Name
+//@   props C12
+//@   requires r.lastRoute != nil ==> routeObjWF(r.lastRoute) && routerWF(r.lastRoute.router)
+//@   modifies maps(type(map[string]route.Leaf))
+//@   panics r.lastRoute == nil || name == "" || has(r.lastRoute.router.namedRoutes, name)
+//@   ensures r.lastRoute != nil && name != "" && !old(has(r.lastRoute.router.namedRoutes, name))
 
 // ---------------------------------------------------------------------------
 // C07 / C03: one chain per request
@@ -343,6 +399,34 @@ package flamego
 //@ define queryOr(c *context, name string, hasDefault bool, def string) string =
 //@     ite(queryGet(c.request.Request.URL, name) == "" && hasDefault, def, queryGet(c.request.Request.URL, name))
 
+// the plain accessors
+//@ func (*context).ResponseWriter
+//@   props C18 C03 C05
+//@   ensures result == c.responseWriter
+//@ func (*context).Request
+//@   props C18 C05
+//@   ensures result == c.request
+//@ trusted strings.LastIndex(s, substr) r
+//@   pure
+//@   ensures -1 <= r && r <= len(s) - len(substr)
+//@ func (*context).RemoteAddr
+//@   props C18 C05
+//@   requires reqOK(c)
+//@   modifies nothing
+//@ functype urlPather(name, pairs) r
+//@   modifies route.Route.str
+//@   panics true
+//@ func (*context).URLPath
+//@   props C12 C05
+//@   requires c.urlPath != nil
+//@   modifies route.Route.str
+//@   panics true
+// Redirect hands the request's own writer and request to net/http (status 302 unless exactly one status is given)
+//@ func (*context).Redirect
+//@   props C18
+//@   requires reqOK(c)
+//@   modifies *
+//@   panics true
 //@ func (*context).Params
 //@   props C18
 //@   ensures result == c.params
@@ -466,9 +550,10 @@ package flamego
 
 // the middleware: every request gets a renderer of its own, bound to this request's response writer and the normalised options
 //@ func Renderer$2
-//@   props C17
+//@   props C17 C05
 //@   requires c != nil
 //@   modifies *
+//@   nosharedwrites
 //@   panics true
 //@   assert[C17] before MapTo#0: fresh(r) && r.responseWriter == ctxWriter(c)
 //@   assert[C17] before MapTo#0: r.opts.Charset == opt.Charset && r.opts.JSONIndent == opt.JSONIndent && r.opts.XMLIndent == opt.XMLIndent
@@ -477,6 +562,34 @@ package flamego
 //@ func Renderer$1
 //@   props C17
 //@   ensures result.Charset == ite(opts.Charset == "", "utf-8", opts.Charset) && result.JSONIndent == opts.JSONIndent && result.XMLIndent == opts.XMLIndent
+
+// ---------------------------------------------------------------------------
+// Middleware constructors and the Logger middleware (C05: what a request-path closure writes itself is fresh memory)
+// ---------------------------------------------------------------------------
+// The constructors are under contract so that the captured-variable preconditions of the closures they build are
+// checked where the closures are made. The closures that run the rest of the chain (`modifies *` for what the chain
+// does) are `nosharedwrites`: their own stores, map updates, appends and Once.Do calls must hit memory allocated during
+// the call - no captured variable, no package-level variable, no object shared between requests.
+//@ func Logger
+//@   props C05
+//@   ensures result != nil
+//@ func Logger$1
+//@   props C05
+//@   requires ctx != nil && logger != nil
+//@   modifies *
+//@   nosharedwrites
+//@   panics true
+//@ func Recovery
+//@   props C15 C05
+//@   ensures result != nil
+//@ func Static
+//@   props C16 C05
+//@   modifies nothing
+//@   ensures result != nil
+//@ func Renderer
+//@   props C17 C05
+//@   modifies nothing
+//@   ensures result != nil
 
 // ---------------------------------------------------------------------------
 // C14 Return values -> response (fixed table)
@@ -556,26 +669,27 @@ package flamego
 //@   ensures envMode() == ite(e == EnvTypeDev || e == EnvTypeProd || e == EnvTypeTest, e, old(envMode()))
 // the helpers of the stack trace run inside the deferred function: they must not panic themselves
 //@ func Recovery$1
-//@   props C15
+//@   props C15 C05
 //@ func Recovery$2
-//@   props C15
+//@   props C15 C05
 //@   assumes len(slash) >= 1 && len(dot) >= 1
 //@ func Recovery$3
-//@   props C15
+//@   props C15 C05
 
 // The handler: whatever c.Next() does (including a panic at any depth), the handler itself returns normally.
 //@ iface Context.Next(this)
 //@   modifies *
 //@   panics true
 //@ func Recovery$4
-//@   props C15
+//@   props C15 C05
 //@   requires c != nil && logger != nil
 //@   modifies *
+//@   nosharedwrites
 
 // The deferred closure. recover() == nil: nothing happens. Otherwise: Content-Type by environment, then status 500
 // (which the response writer forwards only if no status was sent, C13), then the body; detail only in development.
 //@ func Recovery$4$1
-//@   props C15
+//@   props C15 C05
 //@   skip typeassert panic@call:InterfaceOf
 //@   requires-captured c != nil && logger != nil
 //@   modifies hdrOf(rhWriter(c))[*], rhWriter(c).hdrCount, rhWriter(c).hdrSent, rhWriter(c).firstStatus, rhWriter(c).bodyAtHdr, rhWriter(c).ctAtHdr, rhWriter(c).bodyBytes, rhWriter(c).lastWrite
@@ -628,7 +742,7 @@ package flamego
 //@     (strings.HasPrefix(path, prefix) && (path[len(prefix):] == "" || path[len(prefix):][0] == '/'))
 
 //@ func Static$2
-//@   props C16
+//@   props C16 C05
 //@   requires c != nil && logger != nil
 //@   requires-captured opt.FileSystem != nil
 //@   requires ctxWriter(c).served == nil && ctxWriter(c).redirects == 0
@@ -662,7 +776,7 @@ package flamego
 //@   props C08 C09 C10
 //@   requires routerWF(r) && treeWF() && handler != nil
 //@   modifies maps(type(map[string]route.Leaf)), route.baseTree.leaves, route.baseTree.subtrees, route.baseTree.snapLeaves, route.baseTree.snapTrees, route.Segment.scratchIdx, elems(type([]route.Leaf)), elems(type([]route.Tree)),
-//@       route.Segment.str, route.Segment.strOnce.fired, route.Route.str, route.Route.strOnce.fired, elems(type([]string))
+//@       route.Segment.str, route.Segment.strOnce.fired, route.Route.str, route.Route.strOnce.fired
 //@   panics true
 //@   ensures routerWF(r) && treeWF()
 //@   ensures[C10] old(shortcutInv(r)) ==> shortcutInv(r)
@@ -690,7 +804,7 @@ package flamego
 //@   ensures res != nil
 
 //@ func validateAndWrapHandler
-//@   props C11
+//@   props C11 C04
 //@   pure
 //@   modifies nothing
 //@   panics true
@@ -698,7 +812,7 @@ package flamego
 //@   skip nil@call:Kind
 
 //@ func validateAndWrapHandlers
-//@   props C11
+//@   props C11 C04
 //@   modifies handlers[*]
 //@   panics true
 //@   ensures handlersNonNil(handlers)
@@ -707,9 +821,11 @@ package flamego
 //@   loop 0 invariant forall k int :: rangeindex < k && k < len(handlers) ==> handlers[k] == old(handlers[k])
 
 //@ func (*router).Route
-//@   props C11 C03
+//@   props C11 C03 C04
 //@   requires routerWF(r) && treeWF()
-//@   modifies *
+//@   modifies maps(type(map[string]route.Leaf)), route.baseTree.leaves, route.baseTree.subtrees, route.baseTree.snapLeaves, route.baseTree.snapTrees, route.Segment.scratchIdx, elems(type([]route.Leaf)), elems(type([]route.Tree)),
+//@       route.Segment.str, route.Segment.strOnce.fired, route.Route.str, route.Route.strOnce.fired,
+//@       handlers[*], r.regCount, r.regMethod, r.regPath, r.regHandlers
 //@   panics true
 //@   ghost before addRoute#0: r.regMethod[r.regCount] = method
 //@   ghost before addRoute#0: r.regPath[r.regCount] = routePath
@@ -719,8 +835,9 @@ package flamego
 //@   ensures r.regCount == old(r.regCount) + 1 && r.regMethod[old(r.regCount)] == method
 //@   ensures r.regPath[old(r.regCount)] == old(gpUpTo(r, len(r.groups))) + routePath
 //@   ensures len(r.regHandlers[old(r.regCount)]) == ghLen(r, len(r.groups)) + len(handlers)
-//@   ensures forall i int :: 0 <= i && i < len(handlers) ==>
-//@       r.regHandlers[old(r.regCount)][ghLen(r, len(r.groups)) + i] == flamego.validateAndWrapHandler(old(handlers[i]), r.handlerWrapper)
+//@   ensures forall j int :: ghLen(r, len(r.groups)) <= j && j < ghLen(r, len(r.groups)) + len(handlers) ==>
+//@       r.regHandlers[old(r.regCount)][j] == flamego.validateAndWrapHandler(old(handlers[j - ghLen(r, len(r.groups))]), r.handlerWrapper)
+//@   ensures gpUpTo(r, len(r.groups)) == old(gpUpTo(r, len(r.groups))) && ghLen(r, len(r.groups)) == old(ghLen(r, len(r.groups)))
 //@   ensures r.groups == old(r.groups) && r.autoHead == old(r.autoHead)
 //@   ensures forall k int {r.regMethod[k]} :: 0 <= k && k < old(r.regCount) ==> r.regMethod[k] == old(r.regMethod[k])
 //@   ensures forall k int {r.regPath[k]} :: 0 <= k && k < old(r.regCount) ==> r.regPath[k] == old(r.regPath[k])
@@ -732,42 +849,225 @@ package flamego
 //@ func (*router).Get
 //@   props C11
 //@   requires routerWF(r) && treeWF()
-//@   modifies *
+//@   modifies maps(type(map[string]route.Leaf)), route.baseTree.leaves, route.baseTree.subtrees, route.baseTree.snapLeaves, route.baseTree.snapTrees, route.Segment.scratchIdx, elems(type([]route.Leaf)), elems(type([]route.Tree)),
+//@       route.Segment.str, route.Segment.strOnce.fired, route.Route.str, route.Route.strOnce.fired,
+//@       handlers[*], r.regCount, r.regMethod, r.regPath, r.regHandlers
 //@   panics true
+//@   ensures gpUpTo(r, len(r.groups)) == old(gpUpTo(r, len(r.groups))) && ghLen(r, len(r.groups)) == old(ghLen(r, len(r.groups)))
+//@   ensures forall k int {r.regMethod[k]} :: 0 <= k && k < old(r.regCount) ==> r.regMethod[k] == old(r.regMethod[k])
+//@   ensures forall k int {r.regPath[k]} :: 0 <= k && k < old(r.regCount) ==> r.regPath[k] == old(r.regPath[k])
+//@   ensures forall k int {r.regHandlers[k]} :: 0 <= k && k < old(r.regCount) ==> r.regHandlers[k] == old(r.regHandlers[k])
 //@   ensures routerWF(r) && treeWF() && r.groups == old(r.groups) && r.autoHead == old(r.autoHead)
 //@   ensures r.regCount == old(r.regCount) + ite(old(r.autoHead), 2, 1)
 //@   ensures r.regMethod[old(r.regCount)] == "GET" && r.regPath[old(r.regCount)] == old(gpUpTo(r, len(r.groups))) + routePath
 //@   ensures old(r.autoHead) ==> r.regMethod[old(r.regCount) + 1] == "HEAD"
+//@   ensures len(r.regHandlers[old(r.regCount)]) == ghLen(r, len(r.groups)) + len(handlers)
+//@   ensures !old(r.autoHead) ==> forall j int :: ghLen(r, len(r.groups)) <= j && j < ghLen(r, len(r.groups)) + len(handlers) ==>
+//@       r.regHandlers[old(r.regCount)][j] == flamego.validateAndWrapHandler(old(handlers[j - ghLen(r, len(r.groups))]), r.handlerWrapper)
+//@   ensures old(r.autoHead) ==> r.regPath[old(r.regCount) + 1] == old(gpUpTo(r, len(r.groups))) + routePath
+//@   ensures old(r.autoHead) ==> len(r.regHandlers[old(r.regCount) + 1]) == ghLen(r, len(r.groups)) + len(handlers)
+//@   ensures !old(r.autoHead) ==> routeObjWF(result)
 //@ func (*router).Post
 //@   props C11
 //@   requires routerWF(r) && treeWF()
-//@   modifies *
+//@   modifies maps(type(map[string]route.Leaf)), route.baseTree.leaves, route.baseTree.subtrees, route.baseTree.snapLeaves, route.baseTree.snapTrees, route.Segment.scratchIdx, elems(type([]route.Leaf)), elems(type([]route.Tree)),
+//@       route.Segment.str, route.Segment.strOnce.fired, route.Route.str, route.Route.strOnce.fired,
+//@       handlers[*], r.regCount, r.regMethod, r.regPath, r.regHandlers
 //@   panics true
+//@   ensures gpUpTo(r, len(r.groups)) == old(gpUpTo(r, len(r.groups))) && ghLen(r, len(r.groups)) == old(ghLen(r, len(r.groups)))
 //@   ensures forall k int {r.regMethod[k]} :: 0 <= k && k < old(r.regCount) ==> r.regMethod[k] == old(r.regMethod[k])
 //@   ensures forall k int {r.regPath[k]} :: 0 <= k && k < old(r.regCount) ==> r.regPath[k] == old(r.regPath[k])
 //@   ensures forall k int {r.regHandlers[k]} :: 0 <= k && k < old(r.regCount) ==> r.regHandlers[k] == old(r.regHandlers[k])
 //@   ensures routerWF(r) && treeWF() && routeObjWF(result) && r.groups == old(r.groups) && r.autoHead == old(r.autoHead)
 //@   ensures r.regCount == old(r.regCount) + 1 && r.regMethod[old(r.regCount)] == "POST" && r.regPath[old(r.regCount)] == old(gpUpTo(r, len(r.groups))) + routePath
+//@   ensures len(r.regHandlers[old(r.regCount)]) == ghLen(r, len(r.groups)) + len(handlers)
+//@   ensures forall j int :: ghLen(r, len(r.groups)) <= j && j < ghLen(r, len(r.groups)) + len(handlers) ==>
+//@       r.regHandlers[old(r.regCount)][j] == flamego.validateAndWrapHandler(old(handlers[j - ghLen(r, len(r.groups))]), r.handlerWrapper)
 //@ func (*router).Head
 //@   props C11
 //@   requires routerWF(r) && treeWF()
-//@   modifies *
+//@   modifies maps(type(map[string]route.Leaf)), route.baseTree.leaves, route.baseTree.subtrees, route.baseTree.snapLeaves, route.baseTree.snapTrees, route.Segment.scratchIdx, elems(type([]route.Leaf)), elems(type([]route.Tree)),
+//@       route.Segment.str, route.Segment.strOnce.fired, route.Route.str, route.Route.strOnce.fired,
+//@       handlers[*], r.regCount, r.regMethod, r.regPath, r.regHandlers
 //@   panics true
+//@   ensures gpUpTo(r, len(r.groups)) == old(gpUpTo(r, len(r.groups))) && ghLen(r, len(r.groups)) == old(ghLen(r, len(r.groups)))
 //@   ensures forall k int {r.regMethod[k]} :: 0 <= k && k < old(r.regCount) ==> r.regMethod[k] == old(r.regMethod[k])
 //@   ensures forall k int {r.regPath[k]} :: 0 <= k && k < old(r.regCount) ==> r.regPath[k] == old(r.regPath[k])
 //@   ensures forall k int {r.regHandlers[k]} :: 0 <= k && k < old(r.regCount) ==> r.regHandlers[k] == old(r.regHandlers[k])
 //@   ensures routerWF(r) && treeWF() && routeObjWF(result) && r.groups == old(r.groups) && r.autoHead == old(r.autoHead)
 //@   ensures r.regCount == old(r.regCount) + 1 && r.regMethod[old(r.regCount)] == "HEAD" && r.regPath[old(r.regCount)] == old(gpUpTo(r, len(r.groups))) + routePath
+//@   ensures len(r.regHandlers[old(r.regCount)]) == ghLen(r, len(r.groups)) + len(handlers)
+//@   ensures forall j int :: ghLen(r, len(r.groups)) <= j && j < ghLen(r, len(r.groups)) + len(handlers) ==>
+//@       r.regHandlers[old(r.regCount)][j] == flamego.validateAndWrapHandler(old(handlers[j - ghLen(r, len(r.groups))]), r.handlerWrapper)
 //@ func (*router).Any
 //@   props C11
 //@   requires routerWF(r) && treeWF()
-//@   modifies *
+//@   modifies maps(type(map[string]route.Leaf)), route.baseTree.leaves, route.baseTree.subtrees, route.baseTree.snapLeaves, route.baseTree.snapTrees, route.Segment.scratchIdx, elems(type([]route.Leaf)), elems(type([]route.Tree)),
+//@       route.Segment.str, route.Segment.strOnce.fired, route.Route.str, route.Route.strOnce.fired,
+//@       handlers[*], r.regCount, r.regMethod, r.regPath, r.regHandlers
 //@   panics true
+//@   ensures gpUpTo(r, len(r.groups)) == old(gpUpTo(r, len(r.groups))) && ghLen(r, len(r.groups)) == old(ghLen(r, len(r.groups)))
 //@   ensures forall k int {r.regMethod[k]} :: 0 <= k && k < old(r.regCount) ==> r.regMethod[k] == old(r.regMethod[k])
 //@   ensures forall k int {r.regPath[k]} :: 0 <= k && k < old(r.regCount) ==> r.regPath[k] == old(r.regPath[k])
 //@   ensures forall k int {r.regHandlers[k]} :: 0 <= k && k < old(r.regCount) ==> r.regHandlers[k] == old(r.regHandlers[k])
 //@   ensures routerWF(r) && treeWF() && routeObjWF(result) && r.groups == old(r.groups) && r.autoHead == old(r.autoHead)
 //@   ensures r.regCount == old(r.regCount) + 1 && r.regMethod[old(r.regCount)] == "*" && r.regPath[old(r.regCount)] == old(gpUpTo(r, len(r.groups))) + routePath
+//@   ensures len(r.regHandlers[old(r.regCount)]) == ghLen(r, len(r.groups)) + len(handlers)
+//@   ensures forall j int :: ghLen(r, len(r.groups)) <= j && j < ghLen(r, len(r.groups)) + len(handlers) ==>
+//@       r.regHandlers[old(r.regCount)][j] == flamego.validateAndWrapHandler(old(handlers[j - ghLen(r, len(r.groups))]), r.handlerWrapper)
+//@ func (*router).Put
+//@   props C11
+//@   requires routerWF(r) && treeWF()
+//@   modifies maps(type(map[string]route.Leaf)), route.baseTree.leaves, route.baseTree.subtrees, route.baseTree.snapLeaves, route.baseTree.snapTrees, route.Segment.scratchIdx, elems(type([]route.Leaf)), elems(type([]route.Tree)),
+//@       route.Segment.str, route.Segment.strOnce.fired, route.Route.str, route.Route.strOnce.fired,
+//@       handlers[*], r.regCount, r.regMethod, r.regPath, r.regHandlers
+//@   panics true
+//@   ensures gpUpTo(r, len(r.groups)) == old(gpUpTo(r, len(r.groups))) && ghLen(r, len(r.groups)) == old(ghLen(r, len(r.groups)))
+//@   ensures forall k int {r.regMethod[k]} :: 0 <= k && k < old(r.regCount) ==> r.regMethod[k] == old(r.regMethod[k])
+//@   ensures forall k int {r.regPath[k]} :: 0 <= k && k < old(r.regCount) ==> r.regPath[k] == old(r.regPath[k])
+//@   ensures forall k int {r.regHandlers[k]} :: 0 <= k && k < old(r.regCount) ==> r.regHandlers[k] == old(r.regHandlers[k])
+//@   ensures routerWF(r) && treeWF() && routeObjWF(result) && r.groups == old(r.groups) && r.autoHead == old(r.autoHead)
+//@   ensures r.regCount == old(r.regCount) + 1 && r.regMethod[old(r.regCount)] == "PUT" && r.regPath[old(r.regCount)] == old(gpUpTo(r, len(r.groups))) + routePath
+//@   ensures len(r.regHandlers[old(r.regCount)]) == ghLen(r, len(r.groups)) + len(handlers)
+//@   ensures forall j int :: ghLen(r, len(r.groups)) <= j && j < ghLen(r, len(r.groups)) + len(handlers) ==>
+//@       r.regHandlers[old(r.regCount)][j] == flamego.validateAndWrapHandler(old(handlers[j - ghLen(r, len(r.groups))]), r.handlerWrapper)
+//@ func (*router).Patch
+//@   props C11
+//@   requires routerWF(r) && treeWF()
+//@   modifies maps(type(map[string]route.Leaf)), route.baseTree.leaves, route.baseTree.subtrees, route.baseTree.snapLeaves, route.baseTree.snapTrees, route.Segment.scratchIdx, elems(type([]route.Leaf)), elems(type([]route.Tree)),
+//@       route.Segment.str, route.Segment.strOnce.fired, route.Route.str, route.Route.strOnce.fired,
+//@       handlers[*], r.regCount, r.regMethod, r.regPath, r.regHandlers
+//@   panics true
+//@   ensures gpUpTo(r, len(r.groups)) == old(gpUpTo(r, len(r.groups))) && ghLen(r, len(r.groups)) == old(ghLen(r, len(r.groups)))
+//@   ensures forall k int {r.regMethod[k]} :: 0 <= k && k < old(r.regCount) ==> r.regMethod[k] == old(r.regMethod[k])
+//@   ensures forall k int {r.regPath[k]} :: 0 <= k && k < old(r.regCount) ==> r.regPath[k] == old(r.regPath[k])
+//@   ensures forall k int {r.regHandlers[k]} :: 0 <= k && k < old(r.regCount) ==> r.regHandlers[k] == old(r.regHandlers[k])
+//@   ensures routerWF(r) && treeWF() && routeObjWF(result) && r.groups == old(r.groups) && r.autoHead == old(r.autoHead)
+//@   ensures r.regCount == old(r.regCount) + 1 && r.regMethod[old(r.regCount)] == "PATCH" && r.regPath[old(r.regCount)] == old(gpUpTo(r, len(r.groups))) + routePath
+//@   ensures len(r.regHandlers[old(r.regCount)]) == ghLen(r, len(r.groups)) + len(handlers)
+//@   ensures forall j int :: ghLen(r, len(r.groups)) <= j && j < ghLen(r, len(r.groups)) + len(handlers) ==>
+//@       r.regHandlers[old(r.regCount)][j] == flamego.validateAndWrapHandler(old(handlers[j - ghLen(r, len(r.groups))]), r.handlerWrapper)
+//@ func (*router).Delete
+//@   props C11
+//@   requires routerWF(r) && treeWF()
+//@   modifies maps(type(map[string]route.Leaf)), route.baseTree.leaves, route.baseTree.subtrees, route.baseTree.snapLeaves, route.baseTree.snapTrees, route.Segment.scratchIdx, elems(type([]route.Leaf)), elems(type([]route.Tree)),
+//@       route.Segment.str, route.Segment.strOnce.fired, route.Route.str, route.Route.strOnce.fired,
+//@       handlers[*], r.regCount, r.regMethod, r.regPath, r.regHandlers
+//@   panics true
+//@   ensures gpUpTo(r, len(r.groups)) == old(gpUpTo(r, len(r.groups))) && ghLen(r, len(r.groups)) == old(ghLen(r, len(r.groups)))
+//@   ensures forall k int {r.regMethod[k]} :: 0 <= k && k < old(r.regCount) ==> r.regMethod[k] == old(r.regMethod[k])
+//@   ensures forall k int {r.regPath[k]} :: 0 <= k && k < old(r.regCount) ==> r.regPath[k] == old(r.regPath[k])
+//@   ensures forall k int {r.regHandlers[k]} :: 0 <= k && k < old(r.regCount) ==> r.regHandlers[k] == old(r.regHandlers[k])
+//@   ensures routerWF(r) && treeWF() && routeObjWF(result) && r.groups == old(r.groups) && r.autoHead == old(r.autoHead)
+//@   ensures r.regCount == old(r.regCount) + 1 && r.regMethod[old(r.regCount)] == "DELETE" && r.regPath[old(r.regCount)] == old(gpUpTo(r, len(r.groups))) + routePath
+//@   ensures len(r.regHandlers[old(r.regCount)]) == ghLen(r, len(r.groups)) + len(handlers)
+//@   ensures forall j int :: ghLen(r, len(r.groups)) <= j && j < ghLen(r, len(r.groups)) + len(handlers) ==>
+//@       r.regHandlers[old(r.regCount)][j] == flamego.validateAndWrapHandler(old(handlers[j - ghLen(r, len(r.groups))]), r.handlerWrapper)
+//@ func (*router).Options
+//@   props C11
+//@   requires routerWF(r) && treeWF()
+//@   modifies maps(type(map[string]route.Leaf)), route.baseTree.leaves, route.baseTree.subtrees, route.baseTree.snapLeaves, route.baseTree.snapTrees, route.Segment.scratchIdx, elems(type([]route.Leaf)), elems(type([]route.Tree)),
+//@       route.Segment.str, route.Segment.strOnce.fired, route.Route.str, route.Route.strOnce.fired,
+//@       handlers[*], r.regCount, r.regMethod, r.regPath, r.regHandlers
+//@   panics true
+//@   ensures gpUpTo(r, len(r.groups)) == old(gpUpTo(r, len(r.groups))) && ghLen(r, len(r.groups)) == old(ghLen(r, len(r.groups)))
+//@   ensures forall k int {r.regMethod[k]} :: 0 <= k && k < old(r.regCount) ==> r.regMethod[k] == old(r.regMethod[k])
+//@   ensures forall k int {r.regPath[k]} :: 0 <= k && k < old(r.regCount) ==> r.regPath[k] == old(r.regPath[k])
+//@   ensures forall k int {r.regHandlers[k]} :: 0 <= k && k < old(r.regCount) ==> r.regHandlers[k] == old(r.regHandlers[k])
+//@   ensures routerWF(r) && treeWF() && routeObjWF(result) && r.groups == old(r.groups) && r.autoHead == old(r.autoHead)
+//@   ensures r.regCount == old(r.regCount) + 1 && r.regMethod[old(r.regCount)] == "OPTIONS" && r.regPath[old(r.regCount)] == old(gpUpTo(r, len(r.groups))) + routePath
+//@   ensures len(r.regHandlers[old(r.regCount)]) == ghLen(r, len(r.groups)) + len(handlers)
+//@   ensures forall j int :: ghLen(r, len(r.groups)) <= j && j < ghLen(r, len(r.groups)) + len(handlers) ==>
+//@       r.regHandlers[old(r.regCount)][j] == flamego.validateAndWrapHandler(old(handlers[j - ghLen(r, len(r.groups))]), r.handlerWrapper)
+//@ func (*router).Connect
+//@   props C11
+//@   requires routerWF(r) && treeWF()
+//@   modifies maps(type(map[string]route.Leaf)), route.baseTree.leaves, route.baseTree.subtrees, route.baseTree.snapLeaves, route.baseTree.snapTrees, route.Segment.scratchIdx, elems(type([]route.Leaf)), elems(type([]route.Tree)),
+//@       route.Segment.str, route.Segment.strOnce.fired, route.Route.str, route.Route.strOnce.fired,
+//@       handlers[*], r.regCount, r.regMethod, r.regPath, r.regHandlers
+//@   panics true
+//@   ensures gpUpTo(r, len(r.groups)) == old(gpUpTo(r, len(r.groups))) && ghLen(r, len(r.groups)) == old(ghLen(r, len(r.groups)))
+//@   ensures forall k int {r.regMethod[k]} :: 0 <= k && k < old(r.regCount) ==> r.regMethod[k] == old(r.regMethod[k])
+//@   ensures forall k int {r.regPath[k]} :: 0 <= k && k < old(r.regCount) ==> r.regPath[k] == old(r.regPath[k])
+//@   ensures forall k int {r.regHandlers[k]} :: 0 <= k && k < old(r.regCount) ==> r.regHandlers[k] == old(r.regHandlers[k])
+//@   ensures routerWF(r) && treeWF() && routeObjWF(result) && r.groups == old(r.groups) && r.autoHead == old(r.autoHead)
+//@   ensures r.regCount == old(r.regCount) + 1 && r.regMethod[old(r.regCount)] == "CONNECT" && r.regPath[old(r.regCount)] == old(gpUpTo(r, len(r.groups))) + routePath
+//@   ensures len(r.regHandlers[old(r.regCount)]) == ghLen(r, len(r.groups)) + len(handlers)
+//@   ensures forall j int :: ghLen(r, len(r.groups)) <= j && j < ghLen(r, len(r.groups)) + len(handlers) ==>
+//@       r.regHandlers[old(r.regCount)][j] == flamego.validateAndWrapHandler(old(handlers[j - ghLen(r, len(r.groups))]), r.handlerWrapper)
+//@ func (*router).Trace
+//@   props C11
+//@   requires routerWF(r) && treeWF()
+//@   modifies maps(type(map[string]route.Leaf)), route.baseTree.leaves, route.baseTree.subtrees, route.baseTree.snapLeaves, route.baseTree.snapTrees, route.Segment.scratchIdx, elems(type([]route.Leaf)), elems(type([]route.Tree)),
+//@       route.Segment.str, route.Segment.strOnce.fired, route.Route.str, route.Route.strOnce.fired,
+//@       handlers[*], r.regCount, r.regMethod, r.regPath, r.regHandlers
+//@   panics true
+//@   ensures gpUpTo(r, len(r.groups)) == old(gpUpTo(r, len(r.groups))) && ghLen(r, len(r.groups)) == old(ghLen(r, len(r.groups)))
+//@   ensures forall k int {r.regMethod[k]} :: 0 <= k && k < old(r.regCount) ==> r.regMethod[k] == old(r.regMethod[k])
+//@   ensures forall k int {r.regPath[k]} :: 0 <= k && k < old(r.regCount) ==> r.regPath[k] == old(r.regPath[k])
+//@   ensures forall k int {r.regHandlers[k]} :: 0 <= k && k < old(r.regCount) ==> r.regHandlers[k] == old(r.regHandlers[k])
+//@   ensures routerWF(r) && treeWF() && routeObjWF(result) && r.groups == old(r.groups) && r.autoHead == old(r.autoHead)
+//@   ensures r.regCount == old(r.regCount) + 1 && r.regMethod[old(r.regCount)] == "TRACE" && r.regPath[old(r.regCount)] == old(gpUpTo(r, len(r.groups))) + routePath
+//@   ensures len(r.regHandlers[old(r.regCount)]) == ghLen(r, len(r.groups)) + len(handlers)
+//@   ensures forall j int :: ghLen(r, len(r.groups)) <= j && j < ghLen(r, len(r.groups)) + len(handlers) ==>
+//@       r.regHandlers[old(r.regCount)][j] == flamego.validateAndWrapHandler(old(handlers[j - ghLen(r, len(r.groups))]), r.handlerWrapper)
+// Routes: one flat entry per method, in order - first the comma-separated list (each item trimmed), then the leading
+// string-typed handlers; the remaining handlers are the handler list of every entry.
+//@ uninterpreted splitCount(s string, sep string) int
+//@ uninterpreted splitPart(s string, sep string, k int) string
+//@ trusted strings.Split(s, sep) r
+//@   allocates
+//@   ensures fresh(r) && len(r) == splitCount(s, sep) && splitCount(s, sep) >= 1
+//@   ensures forall i int :: 0 <= i && i < len(r) ==> r[i] == splitPart(s, sep, i)
+//@ define nLead(hs []Handler, k int) int = ite(k >= len(hs) || dyn(hs[k]) != type(string), 0, 1 + nLead(hs, k + 1))
+//@ func (*router).Routes
+//@   props C11 C08
+//@   requires routerWF(r) && treeWF()
+//@   modifies maps(type(map[string]route.Leaf)), route.baseTree.leaves, route.baseTree.subtrees, route.baseTree.snapLeaves, route.baseTree.snapTrees, route.Segment.scratchIdx, elems(type([]route.Leaf)), elems(type([]route.Tree)),
+//@       route.Segment.str, route.Segment.strOnce.fired, route.Route.str, route.Route.strOnce.fired,
+//@       handlers[*], r.regCount, r.regMethod, r.regPath, r.regHandlers
+//@   panics true
+//@   ensures methods != ""
+//@   ensures routerWF(r) && treeWF() && r.groups == old(r.groups) && r.autoHead == old(r.autoHead)
+//@   ensures r.regCount == old(r.regCount) + splitCount(methods, ",") + old(nLead(handlers, 0))
+//@   ensures forall k int :: 0 <= k && k < splitCount(methods, ",") ==> r.regMethod[old(r.regCount) + k] == trimSpace(splitPart(methods, ",", k))
+//@   ensures forall k int :: 0 <= k && k < old(nLead(handlers, 0)) ==> r.regMethod[old(r.regCount) + splitCount(methods, ",") + k] == old(handlers[k]).(string)
+//@   ensures forall k int :: old(r.regCount) <= k && k < r.regCount ==> r.regPath[k] == old(gpUpTo(r, len(r.groups))) + routePath
+//@   ensures forall k int :: old(r.regCount) <= k && k < r.regCount ==> len(r.regHandlers[k]) == old(ghLen(r, len(r.groups))) + ite(old(nLead(handlers, 0)) == old(len(handlers)), old(len(handlers)), old(len(handlers)) - old(nLead(handlers, 0)))
+//@   ensures forall k int {r.regMethod[k]} :: 0 <= k && k < old(r.regCount) ==> r.regMethod[k] == old(r.regMethod[k])
+//@   ensures forall k int {r.regPath[k]} :: 0 <= k && k < old(r.regCount) ==> r.regPath[k] == old(r.regPath[k])
+//@   loop 0 invariant routerWF(r) && treeWF()
+//@   loop 1 invariant routerWF(r) && treeWF()
+//@   loop 0 invariant len(ms) == rangeindex + 1 && ((len(ms) == 0 && cap(ms) == 0) || fresh(ms)) && (forall k int :: 0 <= k && k <= rangeindex ==> ms[k] == trimSpace(splitPart(methods, ",", k)))
+//@   loop 0 invariant ref(ms) != ref(rangeexpr#0) && forall k int :: 0 <= k && k < len(rangeexpr#0) ==> rangeexpr#0[k] == splitPart(methods, ",", k)
+//@   loop 1 invariant len(ms) == splitCount(methods, ",") + rangeindex#1 + 1 && fresh(ms) && handlers == old(handlers)
+//@   loop 1 invariant forall k int :: 0 <= k && k < splitCount(methods, ",") ==> ms[k] == trimSpace(splitPart(methods, ",", k))
+//@   loop 1 invariant forall k int :: 0 <= k && k <= rangeindex#1 ==> dyn(handlers[k]) == type(string) && ms[splitCount(methods, ",") + k] == handlers[k].(string)
+//@   loop 1 invariant old(nLead(handlers, 0)) == rangeindex#1 + 1 + nLead(handlers, rangeindex#1 + 1)
+//@   loop 2 invariant routerWF(r) && treeWF() && r.groups == old(r.groups) && r.autoHead == old(r.autoHead) && r.regCount == old(r.regCount) + rangeindex#2 + 1
+//@   loop 2 invariant gpUpTo(r, len(r.groups)) == old(gpUpTo(r, len(r.groups))) && ghLen(r, len(r.groups)) == old(ghLen(r, len(r.groups)))
+//@   loop 2 invariant forall k int :: 0 <= k && k <= rangeindex#2 ==> r.regMethod[old(r.regCount) + k] == ms[k]
+//@   loop 2 invariant forall k int :: old(r.regCount) <= k && k < r.regCount ==> r.regPath[k] == old(gpUpTo(r, len(r.groups))) + routePath
+//@   loop 2 invariant forall k int :: old(r.regCount) <= k && k < r.regCount ==> len(r.regHandlers[k]) == old(ghLen(r, len(r.groups))) + len(handlers)
+//@   loop 2 invariant forall k int {r.regMethod[k]} :: 0 <= k && k < old(r.regCount) ==> r.regMethod[k] == old(r.regMethod[k])
+//@   loop 2 invariant forall k int {r.regPath[k]} :: 0 <= k && k < old(r.regCount) ==> r.regPath[k] == old(r.regPath[k])
+
+//@ func (*router).HandlerWrapper
+//@   props C11 C04
+//@   modifies r.handlerWrapper
+//@   ensures r.handlerWrapper == f
+// Any exported method added to the context or the router later is verified against these defaults: it keeps the
+// object's invariant and has no effect on tracked state (a method that needs more gets a contract of its own).
+//@ methods (*context) (this)
+//@   props C03 C05 C18
+//@   requires ctxInv(this)
+//@   modifies nothing
+//@   ensures ctxInv(this)
+//@ methods (*router) (this)
+//@   props C07 C10 C11 C05
+//@   requires routerWF(this) && treeWF()
+//@   modifies nothing
+//@   ensures routerWF(this) && treeWF()
 //@ func (*router).AutoHead
 //@   props C11
 //@   modifies r.autoHead
@@ -793,13 +1093,23 @@ package flamego
 //@   ensures len(r.groups) == len(old(r.groups))
 //@   ensures forall k int :: 0 <= k && k < len(r.groups) ==> r.groups[k].path == old(r.groups[k].path) && r.groups[k].handlers == old(r.groups[k].handlers)
 
-// Combo: refuses the same method twice; every method gets a fresh handler list (common ++ own)
+// Combo: refuses the same method twice; every method gets a fresh handler list (common ++ own) and is registered
+// through the router's own shortcut for that method: `route` is verified on its own for any function value and is
+// inlined into the nine method shortcuts, where the function value is the known bound method r.router.<Method>; their
+// effect is proved to be that of r.router.<Method>(r.routePath, common ++ own) on the flat registration log.
 //@ functype "func(string, ...flamego.Handler) *flamego.Route" (routePath, handlers) res
 //@   modifies *
 //@   panics true
+//@ define comboWF(r *ComboRoute) bool = r.added != nil && r.router != nil && routerWF(r.router) && treeWF()
+//@ func (*router).Combo
+//@   props C11
+//@   modifies nothing
+//@   ensures fresh(result) && result.router == r && result.routePath == routePath && result.handlers == handlers && result.lastRoute == nil
+//@   ensures result.added != nil && fresh(result.added) && (forall m string :: !has(result.added, m))
 //@ func (*ComboRoute).route
 //@   props C11
-//@   requires r.added != nil && fn != nil
+//@   inline
+//@   requires comboWF(r) && fn != nil
 //@   modifies *
 //@   panics true
 //@   ensures !old(has(r.added, method))
@@ -807,6 +1117,222 @@ package flamego
 //@   assert before fn#0: (forall k int :: 0 <= k && k < len(r.handlers) ==> hs[k] == old(r.handlers[k])) && (forall k int :: 0 <= k && k < len(handlers) ==> hs[len(r.handlers) + k] == old(handlers[k]))
 //@   assert before fn#0: forall k int :: 0 <= k && k < len(r.handlers) ==> r.handlers[k] == old(r.handlers[k])
 //@   ensures result == r
+//@ func (*ComboRoute).Get
+//@   props C11
+//@   requires comboWF(r)
+//@   modifies maps(type(map[string]route.Leaf)), route.baseTree.leaves, route.baseTree.subtrees, route.baseTree.snapLeaves, route.baseTree.snapTrees, route.Segment.scratchIdx, elems(type([]route.Leaf)), elems(type([]route.Tree)),
+//@       route.Segment.str, route.Segment.strOnce.fired, route.Route.str, route.Route.strOnce.fired,
+//@       r.router.regCount, r.router.regMethod, r.router.regPath, r.router.regHandlers, r.added[*], r.lastRoute
+//@   panics true
+//@   ensures result == r && !old(has(r.added, "GET")) && has(r.added, "GET")
+//@   ensures r.router == old(r.router) && r.routePath == old(r.routePath) && r.handlers == old(r.handlers) && r.added == old(r.added) && (forall k int :: 0 <= k && k < len(r.handlers) ==> r.handlers[k] == old(r.handlers[k]))
+//@   ensures forall m string :: m != "GET" ==> has(r.added, m) == old(has(r.added, m))
+//@   ensures routerWF(old(r.router)) && treeWF()
+//@   ensures old(r.router).groups == old(r.router.groups) && old(r.router).autoHead == old(r.router.autoHead)
+//@   ensures old(r.router).regCount == old(r.router.regCount) + ite("GET" == "GET" && old(r.router.autoHead), 2, 1)
+//@   ensures old(r.router).regMethod[old(r.router.regCount)] == "GET"
+//@   ensures old(r.router).regPath[old(r.router.regCount)] == old(gpUpTo(r.router, len(r.router.groups))) + old(r.routePath)
+//@   ensures len(old(r.router).regHandlers[old(r.router.regCount)]) == old(ghLen(r.router, len(r.router.groups))) + old(len(r.handlers)) + len(handlers)
+//@   ensures !old(r.router.autoHead) ==> forall j int :: ghLen(r.router, len(r.router.groups)) <= j && j < ghLen(r.router, len(r.router.groups)) + len(r.handlers) ==>
+//@       r.router.regHandlers[old(r.router.regCount)][j] == flamego.validateAndWrapHandler(old(r.handlers[j - ghLen(r.router, len(r.router.groups))]), r.router.handlerWrapper)
+//@   ensures !old(r.router.autoHead) ==> forall j int :: ghLen(r.router, len(r.router.groups)) + len(r.handlers) <= j && j < ghLen(r.router, len(r.router.groups)) + len(r.handlers) + len(handlers) ==>
+//@       r.router.regHandlers[old(r.router.regCount)][j] == flamego.validateAndWrapHandler(old(handlers[j - ghLen(r.router, len(r.router.groups)) - len(r.handlers)]), r.router.handlerWrapper)
+//@   ensures "GET" == "GET" && old(r.router.autoHead) ==> old(r.router).regMethod[old(r.router.regCount) + 1] == "HEAD" &&
+//@       old(r.router).regPath[old(r.router.regCount) + 1] == old(gpUpTo(r.router, len(r.router.groups))) + old(r.routePath)
+//@   ensures forall k int {old(r.router).regMethod[k]} :: 0 <= k && k < old(r.router.regCount) ==> old(r.router).regMethod[k] == old(r.router.regMethod[k])
+//@   ensures forall k int {old(r.router).regPath[k]} :: 0 <= k && k < old(r.router.regCount) ==> old(r.router).regPath[k] == old(r.router.regPath[k])
+//@ func (*ComboRoute).Post
+//@   props C11
+//@   requires comboWF(r)
+//@   modifies maps(type(map[string]route.Leaf)), route.baseTree.leaves, route.baseTree.subtrees, route.baseTree.snapLeaves, route.baseTree.snapTrees, route.Segment.scratchIdx, elems(type([]route.Leaf)), elems(type([]route.Tree)),
+//@       route.Segment.str, route.Segment.strOnce.fired, route.Route.str, route.Route.strOnce.fired,
+//@       r.router.regCount, r.router.regMethod, r.router.regPath, r.router.regHandlers, r.added[*], r.lastRoute
+//@   panics true
+//@   ensures result == r && !old(has(r.added, "POST")) && has(r.added, "POST")
+//@   ensures r.router == old(r.router) && r.routePath == old(r.routePath) && r.handlers == old(r.handlers) && r.added == old(r.added) && (forall k int :: 0 <= k && k < len(r.handlers) ==> r.handlers[k] == old(r.handlers[k]))
+//@   ensures forall m string :: m != "POST" ==> has(r.added, m) == old(has(r.added, m))
+//@   ensures routerWF(old(r.router)) && treeWF()
+//@   ensures old(r.router).groups == old(r.router.groups) && old(r.router).autoHead == old(r.router.autoHead)
+//@   ensures old(r.router).regCount == old(r.router.regCount) + ite("POST" == "GET" && old(r.router.autoHead), 2, 1)
+//@   ensures old(r.router).regMethod[old(r.router.regCount)] == "POST"
+//@   ensures old(r.router).regPath[old(r.router.regCount)] == old(gpUpTo(r.router, len(r.router.groups))) + old(r.routePath)
+//@   ensures len(old(r.router).regHandlers[old(r.router.regCount)]) == old(ghLen(r.router, len(r.router.groups))) + old(len(r.handlers)) + len(handlers)
+//@   ensures forall j int :: ghLen(r.router, len(r.router.groups)) <= j && j < ghLen(r.router, len(r.router.groups)) + len(r.handlers) ==>
+//@       r.router.regHandlers[old(r.router.regCount)][j] == flamego.validateAndWrapHandler(old(r.handlers[j - ghLen(r.router, len(r.router.groups))]), r.router.handlerWrapper)
+//@   ensures forall j int :: ghLen(r.router, len(r.router.groups)) + len(r.handlers) <= j && j < ghLen(r.router, len(r.router.groups)) + len(r.handlers) + len(handlers) ==>
+//@       r.router.regHandlers[old(r.router.regCount)][j] == flamego.validateAndWrapHandler(old(handlers[j - ghLen(r.router, len(r.router.groups)) - len(r.handlers)]), r.router.handlerWrapper)
+//@   ensures "POST" == "GET" && old(r.router.autoHead) ==> old(r.router).regMethod[old(r.router.regCount) + 1] == "HEAD" &&
+//@       old(r.router).regPath[old(r.router.regCount) + 1] == old(gpUpTo(r.router, len(r.router.groups))) + old(r.routePath)
+//@   ensures forall k int {old(r.router).regMethod[k]} :: 0 <= k && k < old(r.router.regCount) ==> old(r.router).regMethod[k] == old(r.router.regMethod[k])
+//@   ensures forall k int {old(r.router).regPath[k]} :: 0 <= k && k < old(r.router.regCount) ==> old(r.router).regPath[k] == old(r.router.regPath[k])
+//@ func (*ComboRoute).Put
+//@   props C11
+//@   requires comboWF(r)
+//@   modifies maps(type(map[string]route.Leaf)), route.baseTree.leaves, route.baseTree.subtrees, route.baseTree.snapLeaves, route.baseTree.snapTrees, route.Segment.scratchIdx, elems(type([]route.Leaf)), elems(type([]route.Tree)),
+//@       route.Segment.str, route.Segment.strOnce.fired, route.Route.str, route.Route.strOnce.fired,
+//@       r.router.regCount, r.router.regMethod, r.router.regPath, r.router.regHandlers, r.added[*], r.lastRoute
+//@   panics true
+//@   ensures result == r && !old(has(r.added, "PUT")) && has(r.added, "PUT")
+//@   ensures r.router == old(r.router) && r.routePath == old(r.routePath) && r.handlers == old(r.handlers) && r.added == old(r.added) && (forall k int :: 0 <= k && k < len(r.handlers) ==> r.handlers[k] == old(r.handlers[k]))
+//@   ensures forall m string :: m != "PUT" ==> has(r.added, m) == old(has(r.added, m))
+//@   ensures routerWF(old(r.router)) && treeWF()
+//@   ensures old(r.router).groups == old(r.router.groups) && old(r.router).autoHead == old(r.router.autoHead)
+//@   ensures old(r.router).regCount == old(r.router.regCount) + ite("PUT" == "GET" && old(r.router.autoHead), 2, 1)
+//@   ensures old(r.router).regMethod[old(r.router.regCount)] == "PUT"
+//@   ensures old(r.router).regPath[old(r.router.regCount)] == old(gpUpTo(r.router, len(r.router.groups))) + old(r.routePath)
+//@   ensures len(old(r.router).regHandlers[old(r.router.regCount)]) == old(ghLen(r.router, len(r.router.groups))) + old(len(r.handlers)) + len(handlers)
+//@   ensures forall j int :: ghLen(r.router, len(r.router.groups)) <= j && j < ghLen(r.router, len(r.router.groups)) + len(r.handlers) ==>
+//@       r.router.regHandlers[old(r.router.regCount)][j] == flamego.validateAndWrapHandler(old(r.handlers[j - ghLen(r.router, len(r.router.groups))]), r.router.handlerWrapper)
+//@   ensures forall j int :: ghLen(r.router, len(r.router.groups)) + len(r.handlers) <= j && j < ghLen(r.router, len(r.router.groups)) + len(r.handlers) + len(handlers) ==>
+//@       r.router.regHandlers[old(r.router.regCount)][j] == flamego.validateAndWrapHandler(old(handlers[j - ghLen(r.router, len(r.router.groups)) - len(r.handlers)]), r.router.handlerWrapper)
+//@   ensures "PUT" == "GET" && old(r.router.autoHead) ==> old(r.router).regMethod[old(r.router.regCount) + 1] == "HEAD" &&
+//@       old(r.router).regPath[old(r.router.regCount) + 1] == old(gpUpTo(r.router, len(r.router.groups))) + old(r.routePath)
+//@   ensures forall k int {old(r.router).regMethod[k]} :: 0 <= k && k < old(r.router.regCount) ==> old(r.router).regMethod[k] == old(r.router.regMethod[k])
+//@   ensures forall k int {old(r.router).regPath[k]} :: 0 <= k && k < old(r.router.regCount) ==> old(r.router).regPath[k] == old(r.router.regPath[k])
+//@ func (*ComboRoute).Patch
+//@   props C11
+//@   requires comboWF(r)
+//@   modifies maps(type(map[string]route.Leaf)), route.baseTree.leaves, route.baseTree.subtrees, route.baseTree.snapLeaves, route.baseTree.snapTrees, route.Segment.scratchIdx, elems(type([]route.Leaf)), elems(type([]route.Tree)),
+//@       route.Segment.str, route.Segment.strOnce.fired, route.Route.str, route.Route.strOnce.fired,
+//@       r.router.regCount, r.router.regMethod, r.router.regPath, r.router.regHandlers, r.added[*], r.lastRoute
+//@   panics true
+//@   ensures result == r && !old(has(r.added, "PATCH")) && has(r.added, "PATCH")
+//@   ensures r.router == old(r.router) && r.routePath == old(r.routePath) && r.handlers == old(r.handlers) && r.added == old(r.added) && (forall k int :: 0 <= k && k < len(r.handlers) ==> r.handlers[k] == old(r.handlers[k]))
+//@   ensures forall m string :: m != "PATCH" ==> has(r.added, m) == old(has(r.added, m))
+//@   ensures routerWF(old(r.router)) && treeWF()
+//@   ensures old(r.router).groups == old(r.router.groups) && old(r.router).autoHead == old(r.router.autoHead)
+//@   ensures old(r.router).regCount == old(r.router.regCount) + ite("PATCH" == "GET" && old(r.router.autoHead), 2, 1)
+//@   ensures old(r.router).regMethod[old(r.router.regCount)] == "PATCH"
+//@   ensures old(r.router).regPath[old(r.router.regCount)] == old(gpUpTo(r.router, len(r.router.groups))) + old(r.routePath)
+//@   ensures len(old(r.router).regHandlers[old(r.router.regCount)]) == old(ghLen(r.router, len(r.router.groups))) + old(len(r.handlers)) + len(handlers)
+//@   ensures forall j int :: ghLen(r.router, len(r.router.groups)) <= j && j < ghLen(r.router, len(r.router.groups)) + len(r.handlers) ==>
+//@       r.router.regHandlers[old(r.router.regCount)][j] == flamego.validateAndWrapHandler(old(r.handlers[j - ghLen(r.router, len(r.router.groups))]), r.router.handlerWrapper)
+//@   ensures forall j int :: ghLen(r.router, len(r.router.groups)) + len(r.handlers) <= j && j < ghLen(r.router, len(r.router.groups)) + len(r.handlers) + len(handlers) ==>
+//@       r.router.regHandlers[old(r.router.regCount)][j] == flamego.validateAndWrapHandler(old(handlers[j - ghLen(r.router, len(r.router.groups)) - len(r.handlers)]), r.router.handlerWrapper)
+//@   ensures "PATCH" == "GET" && old(r.router.autoHead) ==> old(r.router).regMethod[old(r.router.regCount) + 1] == "HEAD" &&
+//@       old(r.router).regPath[old(r.router.regCount) + 1] == old(gpUpTo(r.router, len(r.router.groups))) + old(r.routePath)
+//@   ensures forall k int {old(r.router).regMethod[k]} :: 0 <= k && k < old(r.router.regCount) ==> old(r.router).regMethod[k] == old(r.router.regMethod[k])
+//@   ensures forall k int {old(r.router).regPath[k]} :: 0 <= k && k < old(r.router.regCount) ==> old(r.router).regPath[k] == old(r.router.regPath[k])
+//@ func (*ComboRoute).Delete
+//@   props C11
+//@   requires comboWF(r)
+//@   modifies maps(type(map[string]route.Leaf)), route.baseTree.leaves, route.baseTree.subtrees, route.baseTree.snapLeaves, route.baseTree.snapTrees, route.Segment.scratchIdx, elems(type([]route.Leaf)), elems(type([]route.Tree)),
+//@       route.Segment.str, route.Segment.strOnce.fired, route.Route.str, route.Route.strOnce.fired,
+//@       r.router.regCount, r.router.regMethod, r.router.regPath, r.router.regHandlers, r.added[*], r.lastRoute
+//@   panics true
+//@   ensures result == r && !old(has(r.added, "DELETE")) && has(r.added, "DELETE")
+//@   ensures r.router == old(r.router) && r.routePath == old(r.routePath) && r.handlers == old(r.handlers) && r.added == old(r.added) && (forall k int :: 0 <= k && k < len(r.handlers) ==> r.handlers[k] == old(r.handlers[k]))
+//@   ensures forall m string :: m != "DELETE" ==> has(r.added, m) == old(has(r.added, m))
+//@   ensures routerWF(old(r.router)) && treeWF()
+//@   ensures old(r.router).groups == old(r.router.groups) && old(r.router).autoHead == old(r.router.autoHead)
+//@   ensures old(r.router).regCount == old(r.router.regCount) + ite("DELETE" == "GET" && old(r.router.autoHead), 2, 1)
+//@   ensures old(r.router).regMethod[old(r.router.regCount)] == "DELETE"
+//@   ensures old(r.router).regPath[old(r.router.regCount)] == old(gpUpTo(r.router, len(r.router.groups))) + old(r.routePath)
+//@   ensures len(old(r.router).regHandlers[old(r.router.regCount)]) == old(ghLen(r.router, len(r.router.groups))) + old(len(r.handlers)) + len(handlers)
+//@   ensures forall j int :: ghLen(r.router, len(r.router.groups)) <= j && j < ghLen(r.router, len(r.router.groups)) + len(r.handlers) ==>
+//@       r.router.regHandlers[old(r.router.regCount)][j] == flamego.validateAndWrapHandler(old(r.handlers[j - ghLen(r.router, len(r.router.groups))]), r.router.handlerWrapper)
+//@   ensures forall j int :: ghLen(r.router, len(r.router.groups)) + len(r.handlers) <= j && j < ghLen(r.router, len(r.router.groups)) + len(r.handlers) + len(handlers) ==>
+//@       r.router.regHandlers[old(r.router.regCount)][j] == flamego.validateAndWrapHandler(old(handlers[j - ghLen(r.router, len(r.router.groups)) - len(r.handlers)]), r.router.handlerWrapper)
+//@   ensures "DELETE" == "GET" && old(r.router.autoHead) ==> old(r.router).regMethod[old(r.router.regCount) + 1] == "HEAD" &&
+//@       old(r.router).regPath[old(r.router.regCount) + 1] == old(gpUpTo(r.router, len(r.router.groups))) + old(r.routePath)
+//@   ensures forall k int {old(r.router).regMethod[k]} :: 0 <= k && k < old(r.router.regCount) ==> old(r.router).regMethod[k] == old(r.router.regMethod[k])
+//@   ensures forall k int {old(r.router).regPath[k]} :: 0 <= k && k < old(r.router.regCount) ==> old(r.router).regPath[k] == old(r.router.regPath[k])
+//@ func (*ComboRoute).Options
+//@   props C11
+//@   requires comboWF(r)
+//@   modifies maps(type(map[string]route.Leaf)), route.baseTree.leaves, route.baseTree.subtrees, route.baseTree.snapLeaves, route.baseTree.snapTrees, route.Segment.scratchIdx, elems(type([]route.Leaf)), elems(type([]route.Tree)),
+//@       route.Segment.str, route.Segment.strOnce.fired, route.Route.str, route.Route.strOnce.fired,
+//@       r.router.regCount, r.router.regMethod, r.router.regPath, r.router.regHandlers, r.added[*], r.lastRoute
+//@   panics true
+//@   ensures result == r && !old(has(r.added, "OPTIONS")) && has(r.added, "OPTIONS")
+//@   ensures r.router == old(r.router) && r.routePath == old(r.routePath) && r.handlers == old(r.handlers) && r.added == old(r.added) && (forall k int :: 0 <= k && k < len(r.handlers) ==> r.handlers[k] == old(r.handlers[k]))
+//@   ensures forall m string :: m != "OPTIONS" ==> has(r.added, m) == old(has(r.added, m))
+//@   ensures routerWF(old(r.router)) && treeWF()
+//@   ensures old(r.router).groups == old(r.router.groups) && old(r.router).autoHead == old(r.router.autoHead)
+//@   ensures old(r.router).regCount == old(r.router.regCount) + ite("OPTIONS" == "GET" && old(r.router.autoHead), 2, 1)
+//@   ensures old(r.router).regMethod[old(r.router.regCount)] == "OPTIONS"
+//@   ensures old(r.router).regPath[old(r.router.regCount)] == old(gpUpTo(r.router, len(r.router.groups))) + old(r.routePath)
+//@   ensures len(old(r.router).regHandlers[old(r.router.regCount)]) == old(ghLen(r.router, len(r.router.groups))) + old(len(r.handlers)) + len(handlers)
+//@   ensures forall j int :: ghLen(r.router, len(r.router.groups)) <= j && j < ghLen(r.router, len(r.router.groups)) + len(r.handlers) ==>
+//@       r.router.regHandlers[old(r.router.regCount)][j] == flamego.validateAndWrapHandler(old(r.handlers[j - ghLen(r.router, len(r.router.groups))]), r.router.handlerWrapper)
+//@   ensures forall j int :: ghLen(r.router, len(r.router.groups)) + len(r.handlers) <= j && j < ghLen(r.router, len(r.router.groups)) + len(r.handlers) + len(handlers) ==>
+//@       r.router.regHandlers[old(r.router.regCount)][j] == flamego.validateAndWrapHandler(old(handlers[j - ghLen(r.router, len(r.router.groups)) - len(r.handlers)]), r.router.handlerWrapper)
+//@   ensures "OPTIONS" == "GET" && old(r.router.autoHead) ==> old(r.router).regMethod[old(r.router.regCount) + 1] == "HEAD" &&
+//@       old(r.router).regPath[old(r.router.regCount) + 1] == old(gpUpTo(r.router, len(r.router.groups))) + old(r.routePath)
+//@   ensures forall k int {old(r.router).regMethod[k]} :: 0 <= k && k < old(r.router.regCount) ==> old(r.router).regMethod[k] == old(r.router.regMethod[k])
+//@   ensures forall k int {old(r.router).regPath[k]} :: 0 <= k && k < old(r.router.regCount) ==> old(r.router).regPath[k] == old(r.router.regPath[k])
+//@ func (*ComboRoute).Head
+//@   props C11
+//@   requires comboWF(r)
+//@   modifies maps(type(map[string]route.Leaf)), route.baseTree.leaves, route.baseTree.subtrees, route.baseTree.snapLeaves, route.baseTree.snapTrees, route.Segment.scratchIdx, elems(type([]route.Leaf)), elems(type([]route.Tree)),
+//@       route.Segment.str, route.Segment.strOnce.fired, route.Route.str, route.Route.strOnce.fired,
+//@       r.router.regCount, r.router.regMethod, r.router.regPath, r.router.regHandlers, r.added[*], r.lastRoute
+//@   panics true
+//@   ensures result == r && !old(has(r.added, "HEAD")) && has(r.added, "HEAD")
+//@   ensures r.router == old(r.router) && r.routePath == old(r.routePath) && r.handlers == old(r.handlers) && r.added == old(r.added) && (forall k int :: 0 <= k && k < len(r.handlers) ==> r.handlers[k] == old(r.handlers[k]))
+//@   ensures forall m string :: m != "HEAD" ==> has(r.added, m) == old(has(r.added, m))
+//@   ensures routerWF(old(r.router)) && treeWF()
+//@   ensures old(r.router).groups == old(r.router.groups) && old(r.router).autoHead == old(r.router.autoHead)
+//@   ensures old(r.router).regCount == old(r.router.regCount) + ite("HEAD" == "GET" && old(r.router.autoHead), 2, 1)
+//@   ensures old(r.router).regMethod[old(r.router.regCount)] == "HEAD"
+//@   ensures old(r.router).regPath[old(r.router.regCount)] == old(gpUpTo(r.router, len(r.router.groups))) + old(r.routePath)
+//@   ensures len(old(r.router).regHandlers[old(r.router.regCount)]) == old(ghLen(r.router, len(r.router.groups))) + old(len(r.handlers)) + len(handlers)
+//@   ensures forall j int :: ghLen(r.router, len(r.router.groups)) <= j && j < ghLen(r.router, len(r.router.groups)) + len(r.handlers) ==>
+//@       r.router.regHandlers[old(r.router.regCount)][j] == flamego.validateAndWrapHandler(old(r.handlers[j - ghLen(r.router, len(r.router.groups))]), r.router.handlerWrapper)
+//@   ensures forall j int :: ghLen(r.router, len(r.router.groups)) + len(r.handlers) <= j && j < ghLen(r.router, len(r.router.groups)) + len(r.handlers) + len(handlers) ==>
+//@       r.router.regHandlers[old(r.router.regCount)][j] == flamego.validateAndWrapHandler(old(handlers[j - ghLen(r.router, len(r.router.groups)) - len(r.handlers)]), r.router.handlerWrapper)
+//@   ensures "HEAD" == "GET" && old(r.router.autoHead) ==> old(r.router).regMethod[old(r.router.regCount) + 1] == "HEAD" &&
+//@       old(r.router).regPath[old(r.router.regCount) + 1] == old(gpUpTo(r.router, len(r.router.groups))) + old(r.routePath)
+//@   ensures forall k int {old(r.router).regMethod[k]} :: 0 <= k && k < old(r.router.regCount) ==> old(r.router).regMethod[k] == old(r.router.regMethod[k])
+//@   ensures forall k int {old(r.router).regPath[k]} :: 0 <= k && k < old(r.router.regCount) ==> old(r.router).regPath[k] == old(r.router.regPath[k])
+//@ func (*ComboRoute).Connect
+//@   props C11
+//@   requires comboWF(r)
+//@   modifies maps(type(map[string]route.Leaf)), route.baseTree.leaves, route.baseTree.subtrees, route.baseTree.snapLeaves, route.baseTree.snapTrees, route.Segment.scratchIdx, elems(type([]route.Leaf)), elems(type([]route.Tree)),
+//@       route.Segment.str, route.Segment.strOnce.fired, route.Route.str, route.Route.strOnce.fired,
+//@       r.router.regCount, r.router.regMethod, r.router.regPath, r.router.regHandlers, r.added[*], r.lastRoute
+//@   panics true
+//@   ensures result == r && !old(has(r.added, "CONNECT")) && has(r.added, "CONNECT")
+//@   ensures r.router == old(r.router) && r.routePath == old(r.routePath) && r.handlers == old(r.handlers) && r.added == old(r.added) && (forall k int :: 0 <= k && k < len(r.handlers) ==> r.handlers[k] == old(r.handlers[k]))
+//@   ensures forall m string :: m != "CONNECT" ==> has(r.added, m) == old(has(r.added, m))
+//@   ensures routerWF(old(r.router)) && treeWF()
+//@   ensures old(r.router).groups == old(r.router.groups) && old(r.router).autoHead == old(r.router.autoHead)
+//@   ensures old(r.router).regCount == old(r.router.regCount) + ite("CONNECT" == "GET" && old(r.router.autoHead), 2, 1)
+//@   ensures old(r.router).regMethod[old(r.router.regCount)] == "CONNECT"
+//@   ensures old(r.router).regPath[old(r.router.regCount)] == old(gpUpTo(r.router, len(r.router.groups))) + old(r.routePath)
+//@   ensures len(old(r.router).regHandlers[old(r.router.regCount)]) == old(ghLen(r.router, len(r.router.groups))) + old(len(r.handlers)) + len(handlers)
+//@   ensures forall j int :: ghLen(r.router, len(r.router.groups)) <= j && j < ghLen(r.router, len(r.router.groups)) + len(r.handlers) ==>
+//@       r.router.regHandlers[old(r.router.regCount)][j] == flamego.validateAndWrapHandler(old(r.handlers[j - ghLen(r.router, len(r.router.groups))]), r.router.handlerWrapper)
+//@   ensures forall j int :: ghLen(r.router, len(r.router.groups)) + len(r.handlers) <= j && j < ghLen(r.router, len(r.router.groups)) + len(r.handlers) + len(handlers) ==>
+//@       r.router.regHandlers[old(r.router.regCount)][j] == flamego.validateAndWrapHandler(old(handlers[j - ghLen(r.router, len(r.router.groups)) - len(r.handlers)]), r.router.handlerWrapper)
+//@   ensures "CONNECT" == "GET" && old(r.router.autoHead) ==> old(r.router).regMethod[old(r.router.regCount) + 1] == "HEAD" &&
+//@       old(r.router).regPath[old(r.router.regCount) + 1] == old(gpUpTo(r.router, len(r.router.groups))) + old(r.routePath)
+//@   ensures forall k int {old(r.router).regMethod[k]} :: 0 <= k && k < old(r.router.regCount) ==> old(r.router).regMethod[k] == old(r.router.regMethod[k])
+//@   ensures forall k int {old(r.router).regPath[k]} :: 0 <= k && k < old(r.router.regCount) ==> old(r.router).regPath[k] == old(r.router.regPath[k])
+//@ func (*ComboRoute).Trace
+//@   props C11
+//@   requires comboWF(r)
+//@   modifies maps(type(map[string]route.Leaf)), route.baseTree.leaves, route.baseTree.subtrees, route.baseTree.snapLeaves, route.baseTree.snapTrees, route.Segment.scratchIdx, elems(type([]route.Leaf)), elems(type([]route.Tree)),
+//@       route.Segment.str, route.Segment.strOnce.fired, route.Route.str, route.Route.strOnce.fired,
+//@       r.router.regCount, r.router.regMethod, r.router.regPath, r.router.regHandlers, r.added[*], r.lastRoute
+//@   panics true
+//@   ensures result == r && !old(has(r.added, "TRACE")) && has(r.added, "TRACE")
+//@   ensures r.router == old(r.router) && r.routePath == old(r.routePath) && r.handlers == old(r.handlers) && r.added == old(r.added) && (forall k int :: 0 <= k && k < len(r.handlers) ==> r.handlers[k] == old(r.handlers[k]))
+//@   ensures forall m string :: m != "TRACE" ==> has(r.added, m) == old(has(r.added, m))
+//@   ensures routerWF(old(r.router)) && treeWF()
+//@   ensures old(r.router).groups == old(r.router.groups) && old(r.router).autoHead == old(r.router.autoHead)
+//@   ensures old(r.router).regCount == old(r.router.regCount) + ite("TRACE" == "GET" && old(r.router.autoHead), 2, 1)
+//@   ensures old(r.router).regMethod[old(r.router.regCount)] == "TRACE"
+//@   ensures old(r.router).regPath[old(r.router.regCount)] == old(gpUpTo(r.router, len(r.router.groups))) + old(r.routePath)
+//@   ensures len(old(r.router).regHandlers[old(r.router.regCount)]) == old(ghLen(r.router, len(r.router.groups))) + old(len(r.handlers)) + len(handlers)
+//@   ensures forall j int :: ghLen(r.router, len(r.router.groups)) <= j && j < ghLen(r.router, len(r.router.groups)) + len(r.handlers) ==>
+//@       r.router.regHandlers[old(r.router.regCount)][j] == flamego.validateAndWrapHandler(old(r.handlers[j - ghLen(r.router, len(r.router.groups))]), r.router.handlerWrapper)
+//@   ensures forall j int :: ghLen(r.router, len(r.router.groups)) + len(r.handlers) <= j && j < ghLen(r.router, len(r.router.groups)) + len(r.handlers) + len(handlers) ==>
+//@       r.router.regHandlers[old(r.router.regCount)][j] == flamego.validateAndWrapHandler(old(handlers[j - ghLen(r.router, len(r.router.groups)) - len(r.handlers)]), r.router.handlerWrapper)
+//@   ensures "TRACE" == "GET" && old(r.router.autoHead) ==> old(r.router).regMethod[old(r.router.regCount) + 1] == "HEAD" &&
+//@       old(r.router).regPath[old(r.router.regCount) + 1] == old(gpUpTo(r.router, len(r.router.groups))) + old(r.routePath)
+//@   ensures forall k int {old(r.router).regMethod[k]} :: 0 <= k && k < old(r.router.regCount) ==> old(r.router).regMethod[k] == old(r.router.regMethod[k])
+//@   ensures forall k int {old(r.router).regPath[k]} :: 0 <= k && k < old(r.router.regCount) ==> old(r.router).regPath[k] == old(r.router.regPath[k])
 
 // ---------------------------------------------------------------------------
 // C09 / C10: Route.Headers   C12: Name / URLPath
@@ -815,18 +1341,23 @@ package flamego
 //@ ghost field route.baseLeaf.method string   // the HTTP method tree the leaf was registered in
 
 //@ func (*Route).Headers
-//@   props C09 C10
+//@   props C09 C10 C07
 //@   requires routeObjWF(r) && routerWF(r.router) && treeWF() && (forall m string :: r.router.staticRoutes[m] != r.leaves)
 //@   modifies route.baseLeaf.headerMatcher, maps(type(map[string]route.Leaf)), route.Route.str, route.Route.strOnce.fired, route.Segment.str, route.Segment.strOnce.fired
 //@   panics true
 //@   ensures result == r && routerWF(r.router) && treeWF()
 //@   ensures forall m string :: has(r.leaves, m) ==> leafBase(r.leaves[m]).headerMatcher != nil && fresh(leafBase(r.leaves[m]).headerMatcher)
-//@   ensures[C09,C10] forall m string :: has(r.leaves, m) && leafStyle(r.leaves[m]) == 1 && staticAnc(leafBase(r.leaves[m]).parent) ==> !has(r.router.staticRoutes[m], routeStr(leafBase(r.leaves[m]).route))
+//@   ensures[C09,C10,C07] forall m string :: has(r.leaves, m) && leafStyle(r.leaves[m]) == 1 && staticAnc(leafBase(r.leaves[m]).parent) ==> !has(r.router.staticRoutes[m], routeStr(leafBase(r.leaves[m]).route))
+// (what Headers may leave in the fast-path table: plain static, non-optional entries that had no constraints before)
+//@   ensures[C10,C07] old(shortcutInv(r.router)) ==> (forall m string, p string :: has(r.router.staticRoutes, m) && has(r.router.staticRoutes[m], p) ==>
+//@       r.router.staticRoutes[m][p] != nil && leafStyle(r.router.staticRoutes[m][p]) == 1 && !leafBase(r.router.staticRoutes[m][p]).segment.Optional && old(leafBase(r.router.staticRoutes[m][p]).headerMatcher) == nil)
+//@   loop 1 invariant[C10,C07] old(shortcutInv(r.router)) ==> (forall m string, p string :: has(r.router.staticRoutes, m) && has(r.router.staticRoutes[m], p) ==>
+//@       r.router.staticRoutes[m][p] != nil && leafStyle(r.router.staticRoutes[m][p]) == 1 && !leafBase(r.router.staticRoutes[m][p]).segment.Optional && old(leafBase(r.router.staticRoutes[m][p]).headerMatcher) == nil)
 //@   loop 0 invariant matches != nil && fresh(matches) && 1 <= i
 //@   loop 1 invariant routeObjWF(r) && routerWF(r.router) && treeWF() && matches != nil && fresh(matches)
 //@   loop 1 invariant forall m string :: visited(m) ==> has(r.leaves, m) && leafBase(r.leaves[m]).headerMatcher != nil && fresh(leafBase(r.leaves[m]).headerMatcher)
 //@   loop 1 invariant forall x *route.baseLeaf :: live(x) ==> x.headerMatcher == old(x.headerMatcher) || fresh(x.headerMatcher)
-//@   loop 1 invariant[C09,C10] forall m string :: visited(m) && leafStyle(r.leaves[m]) == 1 && staticAnc(leafBase(r.leaves[m]).parent) ==> !has(r.router.staticRoutes[m], routeStr(leafBase(r.leaves[m]).route))
+//@   loop 1 invariant[C09,C10,C07] forall m string :: visited(m) && leafStyle(r.leaves[m]) == 1 && staticAnc(leafBase(r.leaves[m]).parent) ==> !has(r.router.staticRoutes[m], routeStr(leafBase(r.leaves[m]).route))
 //@   loop 1 invariant forall m string :: r.router.staticRoutes[m] != r.leaves
 
 //@ func (*Route).Name
@@ -847,3 +1378,4 @@ package flamego
 //@   ensures has(r.namedRoutes, name)
 //@   loop 0 invariant vals != nil && fresh(vals) && 1 <= i && leaf != nil
 //@   loop 0 invariant forall k string :: has(vals, k) ==> exists j int :: 1 <= j && j < i && pairs[j - 1] == k
+
